@@ -1,3 +1,4 @@
+import Mixin.Facts.ExpectedC34
 import Mixin.Model.Custodian
 import Mathlib.Tactic.SplitIfs
 import Mathlib.Data.List.Nodup
@@ -554,5 +555,103 @@ theorem custodian_accept_sound {V : Verifier} {xin : Bytes} {tx : Tx} {store : S
     rw [hnil] at hr
     have := List.filter_eq_nil_iff.mp hr.symm kv hkv
     simpa [List.contains_iff_mem] using this
+
+
+/-! ## round trip: the parser accepts every canonical extra and returns its entries -/
+
+theorem parse_complete {V : Verifier} {g : Bool} {extra : Bytes} {req : Request}
+    (h : Canonical V g extra req) : parseExtra V g extra = some req := by
+  obtain ⟨hl, hc, hs, hcount, hent, hsorted, hfresh⟩ := h
+  have hel := extras_len hent
+  have hflen : (flattenExtras req.nodes).length = nodeExtraSize * req.nodes.length := by
+    unfold flattenExtras
+    rw [flatten_length _ hel, List.length_map]
+  have hlen : extra.length = 64 + nodeExtraSize * req.nodes.length + 64 := by
+    rw [hl]; simp only [List.length_append, hc, hs, hflen]
+  have htake : extra.take 64 = req.custodian := by
+    rw [hl, List.append_assoc]; exact List.take_left' hc
+  have hdrop : extra.drop (extra.length - 64) = req.signature := by
+    have : extra.length - 64 = (req.custodian ++ flattenExtras req.nodes).length := by
+      rw [hlen, List.length_append, hc, hflen]; omega
+    rw [this, hl]; exact List.drop_left' rfl
+  have hslice : slice extra 64 (extra.length - 64) = flattenExtras req.nodes := by
+    unfold slice
+    have e : extra.length - 64 - 64 = (flattenExtras req.nodes).length := by rw [hlen, hflen]; omega
+    rw [e, hl, List.append_assoc, List.drop_left' hc]
+    exact List.take_left' rfl
+  have hlt : ¬ extra.length < 64 + nodeExtraSize * nodesMinimumCount + 64 := by
+    simp only [nodeExtraSize, nodesMinimumCount] at hcount hlen ⊢; omega
+  have hmod : ¬ (nodeExtraSize * req.nodes.length) % nodeExtraSize ≠ 0 := by simp
+  have hdiv : nodeExtraSize * req.nodes.length / nodeExtraSize = (req.nodes.map (·.extra)).length := by
+    rw [List.length_map]; exact Nat.mul_div_cancel_left _ (by decide)
+  unfold parseExtra
+  rw [if_neg hlt]
+  simp only []
+  rw [hslice, hflen, if_neg hmod, hdiv]
+  unfold flattenExtras
+  rw [chunks_of_flatten _ hel, parseNodes_complete V g req.nodes [] hent (fun _ _ => by simp) hfresh]
+  simp only []
+  rw [sortNodes_eq_of_sorted _ hsorted, if_neg (by simp), htake, hdrop]
+
+/-- `ParseCustodianUpdateNodesExtra` accepts exactly the canonical extras. -/
+theorem parse_iff_canonical (V : Verifier) (g : Bool) (extra : Bytes) (req : Request) :
+    parseExtra V g extra = some req ↔ Canonical V g extra req :=
+  ⟨parse_sound, parse_complete⟩
+
+/-- **C34, round trip.** Concatenating the custodian address, the sorted entries and the approval
+    signature, and parsing the result, returns the same custodian, entries and signature. -/
+theorem custodian_roundtrip (V : Verifier) (g : Bool) (req : Request)
+    (hc : req.custodian.length = 64) (hs : req.signature.length = 64)
+    (hn : nodesMinimumCount ≤ req.nodes.length) (hent : ∀ n ∈ req.nodes, EntryOk V g n)
+    (hsorted : StrictSorted req.nodes) (hfresh : req.nodes.Pairwise Fresh) :
+    parseExtra V g (req.custodian ++ flattenExtras req.nodes ++ req.signature) = some req :=
+  parse_complete ⟨rfl, hc, hs, hn, hent, hsorted, hfresh⟩
+
+/-- `EncodeCustodianNode` lays the fields out where `parseCustodianNode` reads them, and the
+    entry passes `parseCustodianNode` when payee and custodian signed its first 161 bytes. -/
+theorem encodeNode_fields (c p id s1 s2 s3 : Bytes) (hc : c.length = 64) (hp : p.length = 64)
+    (hid : id.length = 32) (h1 : s1.length = 64) (h2 : s2.length = 64) (h3 : s3.length = 64) :
+    let n : Node := ⟨encodeNode c p id s1 s2 s3⟩
+    n.extra.length = nodeExtraSize ∧ n.extra.head? = some actionUpdate ∧
+    n.custAddr = c ∧ n.payeeAddr = p ∧ n.nodeId = id ∧ n.signed = [actionUpdate] ++ c ++ p ++ id ∧
+    n.signerSig = s1 ∧ n.payeeSig = s2 ∧ n.custSig = s3 := by
+  intro n
+  have e : n.extra = [actionUpdate] ++ (c ++ (p ++ (id ++ (s1 ++ (s2 ++ s3))))) := by
+    simp [n, encodeNode, List.append_assoc]
+  have d1 : n.extra.drop 1 = c ++ (p ++ (id ++ (s1 ++ (s2 ++ s3)))) := by rw [e]; rfl
+  have d65 : n.extra.drop 65 = p ++ (id ++ (s1 ++ (s2 ++ s3))) := by
+    rw [show (65 : Nat) = 1 + 64 from rfl, ← List.drop_drop, d1]; exact List.drop_left' hc
+  have d129 : n.extra.drop 129 = id ++ (s1 ++ (s2 ++ s3)) := by
+    rw [show (129 : Nat) = 65 + 64 from rfl, ← List.drop_drop, d65]; exact List.drop_left' hp
+  have d161 : n.extra.drop 161 = s1 ++ (s2 ++ s3) := by
+    rw [show (161 : Nat) = 129 + 32 from rfl, ← List.drop_drop, d129]; exact List.drop_left' hid
+  have d225 : n.extra.drop 225 = s2 ++ s3 := by
+    rw [show (225 : Nat) = 161 + 64 from rfl, ← List.drop_drop, d161]; exact List.drop_left' h1
+  have d289 : n.extra.drop 289 = s3 := by
+    rw [show (289 : Nat) = 225 + 64 from rfl, ← List.drop_drop, d225]; exact List.drop_left' h2
+  refine ⟨?_, ?_, ?_, ?_, ?_, ?_, ?_, ?_, ?_⟩
+  · rw [e]; simp only [List.length_append, List.length_cons, List.length_nil, hc, hp, hid, h1, h2, h3]; rfl
+  · rw [e]; rfl
+  · simp only [Node.custAddr, slice, d1]; exact List.take_left' hc
+  · simp only [Node.payeeAddr, slice, d65]; exact List.take_left' hp
+  · simp only [Node.nodeId, slice, d129]; exact List.take_left' hid
+  · simp only [Node.signed]
+    have : n.extra = ([actionUpdate] ++ c ++ p ++ id) ++ (s1 ++ (s2 ++ s3)) := by
+      rw [e]; simp [List.append_assoc]
+    rw [this]; exact List.take_left' (by simp [hc, hp, hid])
+  · simp only [Node.signerSig, slice, d161]; exact List.take_left' h1
+  · simp only [Node.payeeSig, slice, d225]; exact List.take_left' h2
+  · simp only [Node.custSig, slice, d289, nodeExtraSize]; rw [List.take_of_length_le (by omega)]
+
+/-! ## non-vacuity: a tiny concrete instance of every rule -/
+
+example : bytesLt [1, 2] [1, 3] = true ∧ bytesLt [1, 3] [1, 2] = false ∧ bytesLt [2] [2] = false := by decide
+set_option maxRecDepth 16384 in
+example : parseNode (fun _ _ _ => true) false (actionUpdate :: List.replicate 352 7) = none := by decide
+set_option maxRecDepth 16384 in
+example : (parseNode (fun _ _ _ => true) true (actionUpdate :: List.replicate 352 7)).isSome = true := by decide
+example : (priceLoop [⟨[1, 5]⟩, ⟨[1, 6]⟩] [([5], [9])] 0).1 = newPrice + updatePrice := by decide
+example : distinctKeys [([1], [2]), ([1], [3])] = false := by decide
+example : validate (fun _ _ _ => true) [1] ⟨4, [1], [], []⟩ .none = .reject := by decide
 
 end Mixin.C34
